@@ -1,0 +1,58 @@
+//go:build verif
+
+package pppoe
+
+// Verification hook for property C09: run the REAL receiveLoop over injected Ethernet frames.
+// Injection point only; compiled only with -tags verif.
+
+import (
+	"context"
+	"fmt"
+	"net"
+)
+
+// verifC09FeedSocket hands a fixed list of frames to recv and records what is sent through the
+// server's VerifC09Socket. After the last frame it cancels the loop's context.
+type verifC09FeedSocket struct {
+	out    *VerifC09Socket
+	frames [][]byte
+	tails  [][]byte
+	next   int
+	cancel context.CancelFunc
+}
+
+func (s *verifC09FeedSocket) open(iface string, etherType uint16) error { return nil }
+func (s *verifC09FeedSocket) close() error                              { return nil }
+func (s *verifC09FeedSocket) send(iface string, dstMAC net.HardwareAddr, etherType uint16, data []byte) error {
+	return s.out.send(iface, dstMAC, etherType, data)
+}
+
+// recv copies the next frame into buf, leaves the matching tail (stale bytes of an earlier,
+// longer frame) right behind it, and reports the frame's length.
+func (s *verifC09FeedSocket) recv(buf []byte) (int, error) {
+	if s.next >= len(s.frames) {
+		s.cancel()
+		return 0, fmt.Errorf("no data")
+	}
+	n := copy(buf, s.frames[s.next])
+	if s.next < len(s.tails) {
+		copy(buf[n:], s.tails[s.next])
+	}
+	s.next++
+	return n, nil
+}
+
+// VerifC09ReceiveFrames runs receiveLoop on the caller's goroutine until it has consumed the
+// frames (a panic inside the loop propagates to the caller). The server must have been built by
+// VerifC09NewServer; frames sent are recorded by that server's VerifC09Socket as usual.
+func (s *Server) VerifC09ReceiveFrames(frames, tails [][]byte) {
+	out, ok := s.socket.(*VerifC09Socket)
+	if !ok {
+		panic("VerifC09ReceiveFrames: server was not built by VerifC09NewServer")
+	}
+	ctx, cancel := context.WithCancel(context.Background())
+	defer cancel()
+	s.socket = &verifC09FeedSocket{out: out, frames: frames, tails: tails, cancel: cancel}
+	defer func() { s.socket = out }()
+	s.receiveLoop(ctx)
+}
